@@ -2118,6 +2118,16 @@ class TestGraph(object):
                     for parent in parents:
                         if parent.is_object_root():
                             parent.descend_from_node(root, parent.get_terminal_object())
+                    if (
+                        not current.is_flat()
+                        and not current.is_object_root()
+                        and len(current.setup_nodes) == 0
+                    ):
+                        # same treatment as when parsing the shared root up front: a test without
+                        # any setup is not an object root but has to start from the shared root
+                        current.descend_from_node(
+                            root, TestObject("shared", current.recipe)
+                        )
                     current.validate()
 
             if next.is_occupied(worker):
